@@ -215,3 +215,65 @@ def seq(tier, seed, params):
         for (n, m) in cpairs:
             out.append("op=concat n=%d k=%d kind=%s" % (n, m, kind))
     return out
+
+
+VIEW_NS = list(range(0, 13)) + [15, 16, 17, 31, 32, 33, 64, 97, 255, 256, 1024]
+VIEW_KINDS = ["u8", "u32", "w24", "unit", "tr"]
+VIEWS = ["as_slice", "as_mut_slice", "deref", "deref_mut", "borrow", "borrow_mut", "as_ref", "as_mut", "ref_iter", "mut_iter"]
+MUT_VIEWS = ["as_mut_slice", "deref_mut", "borrow_mut", "as_mut", "mut_iter", "index_mut"]
+READ_VIEWS = ["as_slice", "as_mut_slice", "deref", "borrow", "as_ref", "ref_iter", "index"]
+
+
+def views(tier, seed, params):
+    out = []
+    for kind in VIEW_KINDS:
+        for n in VIEW_NS:
+            for v in VIEWS:
+                out.append("op=view kind2=%s n=%d kind=%s" % (v, n, kind))
+            ls = sorted(set([0, max(0, n - 1), n, n + 1, 2 * n + 1]))
+            for op in ("from_slice", "try_from_slice", "from_mut_slice", "try_from_mut_slice", "try_from", "try_from_mut"):
+                for l in ls:
+                    out.append("op=%s n=%d l=%d kind=%s" % (op, n, l, kind))
+            if n <= 64:
+                for op in ("as_ref_arr", "as_mut_arr", "from_arr_ref", "from_arr_mut", "array_roundtrip"):
+                    out.append("op=%s n=%d kind=%s" % (op, n, kind))
+            if 1 <= n <= 12:
+                out.append("op=tuple_roundtrip n=%d kind=%s" % (n, kind))
+            if 1 <= n <= 17 and kind in ("u32", "w24", "unit"):
+                for i in sorted(set([0, n // 2, n - 1])):
+                    for a in MUT_VIEWS:
+                        for b in READ_VIEWS:
+                            out.append("op=write_read via=%s read=%s n=%d i=%d kind=%s" % (a, b, n, i, kind))
+    return out
+
+
+CHUNK_NS = [0, 1, 2, 3, 7, 8, 16, 33]
+CHUNK_KINDS = ["u8", "u32", "w24", "unit"]
+
+
+def chunks(tier, seed, params):
+    out = []
+    for kind in CHUNK_KINDS:
+        for n in CHUNK_NS:
+            for l in range(0, 4 * n + 4):
+                out.append("op=chunks n=%d l=%d kind=%s" % (n, l, kind))
+                out.append("op=chunks_mut n=%d l=%d kind=%s" % (n, l, kind))
+            for l in (0, 1, 2, 5):
+                for op in ("flat", "flat_mut", "from_chunks", "from_chunks_mut", "into_chunks", "into_chunks_mut"):
+                    out.append("op=%s n=%d l=%d kind=%s" % (op, n, l, kind))
+    return out
+
+
+def regroup(tier, seed, params):
+    out = []
+    pairs = [(n, m) for n in range(0, 7) for m in range(0, 7)] + [(1, 1024), (1024, 1), (16, 64)]
+    for kind in VIEW_KINDS:
+        for (n, m) in pairs:
+            if kind == "u8" and n * m > 250:
+                continue
+            for op in ("flatten", "flatten_ref", "flatten_mut"):
+                out.append("op=%s n=%d m=%d kind=%s" % (op, n, m, kind))
+            if n >= 1:
+                for op in ("unflatten", "unflatten_ref", "unflatten_mut"):
+                    out.append("op=%s n=%d m=%d kind=%s" % (op, n, m, kind))
+    return out
